@@ -174,20 +174,58 @@ YamlTime(sec, nsec, zone) == LET t == Civil(sec) IN
   PadN(t.Y, 4) \o "-" \o Pad2(t.M) \o "-" \o Pad2(t.D) \o " " \o Pad2(t.h) \o ":" \o Pad2(t.m) \o ":" \o Pad2(t.s)
     \o "." \o PadN(nsec, 9) \o " " \o zone
 
-\* state.txt of minute / hour / day replication; style 0 = the osmosis file of today, 1 = the short early files
-IntervalBody(n, sec, style) ==
-  IF style = 0
-    THEN "#" \o PropsDate(sec + 1) \o "\n" \o "txnMaxQueried=" \o ToString(830000000 + n) \o "\n"
-         \o "sequenceNumber=" \o ToString(n) \o "\n" \o "timestamp=" \o EscapedTime(sec) \o "\n"
-         \o "txnReadyList=\n" \o "txnMax=" \o ToString(830000000 + n) \o "\n" \o "txnActiveList=" \o ToString(829999990 + n) \o "\n"
-    ELSE "#" \o PropsDate(sec + 1) \o "\n" \o "sequenceNumber=" \o ToString(n) \o "\n" \o "timestamp=" \o EscapedTime(sec) \o "\n"
+\* state.txt of minute / hour / day replication is a java.util.Properties file: a date comment, key=value lines in
+\* no defined order, colons escaped.  style 0 = the osmosis file of today (all six keys), 1 = the short early files
+\* (sequenceNumber and timestamp only).  Per state a layout is chosen (Layout below):
+\*   order    which permutation of the keys (KeyOrders: the order of the example in interval.go, today's planet
+\*            order with the timestamp last, alphabetical, transaction lists first)
+\*   ready, active   how many transaction ids txnReadyList / txnActiveList hold: 0, 60, 130 or 400 (files of
+\*            about 0.2, 0.9, 1.6 and 4.5 KiB)
+\*   crlf     lines end in CR LF instead of LF
+\*   notes    0-2 further comment lines ('#' and '!' comments, one containing '=' and ':')
+KeyOrders == << <<"txnMaxQueried", "sequenceNumber", "timestamp", "txnReadyList", "txnMax", "txnActiveList">>,
+                <<"sequenceNumber", "txnMaxQueried", "txnActiveList", "txnReadyList", "txnMax", "timestamp">>,
+                <<"sequenceNumber", "timestamp", "txnActiveList", "txnMax", "txnMaxQueried", "txnReadyList">>,
+                <<"txnActiveList", "txnReadyList", "timestamp", "sequenceNumber", "txnMax", "txnMaxQueried">> >>
+ListLens  == <<0, 60, 130, 400>>
+RECURSIVE IdStr(_)
+IdStr(k) == IF k = 0 THEN "" ELSE IF k = 1 THEN ToString(829000001) ELSE IdStr(k - 1) \o "," \o ToString(829000000 + k)
+Ids60 == IdStr(60)   Ids130 == IdStr(130)   Ids400 == IdStr(400)
+IdList(k) == CASE k = 0 -> "" [] k = 60 -> Ids60 [] k = 130 -> Ids130 [] k = 400 -> Ids400
+\* the layout of state n's file under rendering parameters r (r.lay: a per-directory number, r.lists = 0 switches
+\* the long lists off for directories with very many files)
+Layout(r, n) == LET h == 5 * n + r.lay IN
+  [order |-> (h % 4) + 1,
+   ready |-> IF r.lists = 0 THEN 0 ELSE ListLens[((h \div 4) % 4) + 1],
+   active |-> IF r.lists = 0 THEN 0 ELSE ListLens[((h \div 16) % 4) + 1],
+   crlf |-> (h \div 64) % 2, notes |-> (h \div 128) % 3]
+TxnMax(r, n)        == IF r.kind # "changesets" /\ r.style = 0 THEN 830000100 + n ELSE 0    \* State.TxnMax as read from the file
+TxnMaxQueried(r, n) == IF r.kind # "changesets" /\ r.style = 0 THEN 830000000 + n ELSE 0
+PropsLine(r, n, sec, lay, key) ==
+  key \o "=" \o (CASE key = "sequenceNumber" -> ToString(n)
+                    [] key = "timestamp"      -> EscapedTime(sec)
+                    [] key = "txnMax"         -> ToString(TxnMax(r, n))
+                    [] key = "txnMaxQueried"  -> ToString(TxnMaxQueried(r, n))
+                    [] key = "txnReadyList"   -> IdList(lay.ready)
+                    [] key = "txnActiveList"  -> IdList(lay.active))
+RECURSIVE JoinLines(_, _)
+JoinLines(ls, eol) == IF ls = << >> THEN "" ELSE Head(ls) \o eol \o JoinLines(Tail(ls), eol)
+IntervalBody(r, n, sec) == LET lay  == Layout(r, n)
+                               eol  == IF lay.crlf = 1 THEN "\r\n" ELSE "\n"
+                               keys == IF r.style = 0 THEN KeyOrders[lay.order]
+                                       ELSE IF lay.order % 2 = 1 THEN <<"sequenceNumber", "timestamp">> ELSE <<"timestamp", "sequenceNumber">>
+                               note == CASE lay.notes = 0 -> << >>
+                                         [] lay.notes = 1 -> <<"#osmosis replication state, timestamp=1970-01-01T00\\:00\\:00Z">>
+                                         [] lay.notes = 2 -> <<"! written by osmosis", "#sequenceNumber = 0 : see timestamp">>
+                           IN JoinLines(<<"#" \o PropsDate(sec + 1)>> \o note \o [i \in 1 .. Len(keys) |-> PropsLine(r, n, sec, lay, keys[i])], eol)
 \* NNN.state.txt / state.yaml of changeset replication: the sequence inside is one less than the file's name
-ChangesetBody(n, sec, nsec, style) ==
-  "---\n" \o "last_run: " \o YamlTime(sec, nsec, IF style = 0 THEN "+00:00" ELSE "Z") \o "\n" \o "sequence: " \o ToString(n - 1) \o "\n"
+ChangesetBody(r, n, sec, nsec) == LET eol == IF Layout(r, n).crlf = 1 THEN "\r\n" ELSE "\n" IN
+  "---" \o eol \o "last_run: " \o YamlTime(sec, nsec, IF r.style = 0 THEN "+00:00" ELSE "Z") \o eol \o "sequence: " \o ToString(n - 1) \o eol
 
-\* rendering parameters r: a time assignment + [style \in {0,1}, prefix (path prefix of a mirror, may be "")]
+\* rendering parameters r: a time assignment + [style \in {0,1}, lay, lists (file layout, above), prefix (path
+\* prefix of a mirror, may be "")]
 Body(r, n) == LET sec == Sec(r, TS(n)) IN
-  IF r.kind = "changesets" THEN ChangesetBody(n, sec, Nsec(r.kind, TS(n)), r.style) ELSE IntervalBody(n, sec, r.style)
+  IF r.kind = "changesets" THEN ChangesetBody(r, n, sec, Nsec(r.kind, TS(n))) ELSE IntervalBody(r, n, sec)
 FileOf(r, n)     == [path |-> r.prefix \o StateURL(r.kind, n), body |-> Body(r, n)]
 CurrentFile(r, c) == [path |-> r.prefix \o CurrentURL(r.kind), body |-> Body(r, Cur(c))]   \* a copy of the newest state file
 
